@@ -32,6 +32,9 @@ macro_rules! types {
             fn ptr_cap(&self) -> (usize, usize) {
                 match self { $(Held::$var(v) => (v.as_ptr() as usize, v.capacity())),* }
             }
+            fn esize(&self) -> usize {
+                match self { $(Held::$var(_) => std::mem::size_of::<$t>()),* }
+            }
             fn add_to(self, pool: &BufferPool) {
                 match self { $(Held::$var(v) => pool.add(v)),* }
             }
@@ -59,7 +62,7 @@ fn exec_seq(line: &str) -> String {
     };
     let mut held: Vec<(u64, Held)> = vec![];
     // buffers we believe are in the pool, in the order they were added: (id, ptr)
-    let mut pooled: Vec<(u64, usize, usize)> = vec![];
+    let mut pooled: Vec<(u64, usize, usize, usize)> = vec![]; // (id, ptr, capacity, elem size)
     let mut next_id = 0u64;
     let mut terms: Vec<String> = vec![];
     let mut anomalies = 0;
@@ -87,13 +90,21 @@ fn exec_seq(line: &str) -> String {
                 if len_after + 1 == len_before {
                     // served from the pool: identify which buffer by pointer (earliest added wins
                     // for indistinguishable dangling pointers of zero-sized allocations)
-                    let pos = pooled.iter().position(|&(_, p, c)| p == ptr && c == vcap);
+                    let pos = pooled.iter().position(|&(_, p, c, _)| p == ptr && c == vcap);
+                    let mut poisoned = false;
                     let id = match pos {
-                        Some(i) => pooled.remove(i).0,
+                        Some(i) => { let e = pooled.remove(i); poisoned = e.3 == 0 && es != 0; e.0 }
                         None => { anomalies += 1; 999_999 }
                     };
                     nreuse += 1;
                     terms.push(format!("(OAlloc {} {} {} {}, ObsAlloc (Some {}) {} {})", es, al, cap, cap, id, vcap, len_after));
+                    if poisoned {
+                        // a zero-sized-element buffer was handed out for a sized type: the Vec is backed by
+                        // no memory; touching or dropping it is UB, so leak it and stop the sequence here
+                        std::mem::forget(v);
+                        anomalies += 1;
+                        break;
+                    }
                     held.push((id, v));
                 } else {
                     let id = next_id;
@@ -102,16 +113,26 @@ fn exec_seq(line: &str) -> String {
                     held.push((id, v));
                 }
             }
+            "z" => {
+                // a zero-sized-element Vec built by the holder itself (not through the pool)
+                let cap: usize = op[1..].parse().unwrap();
+                let v = Held::Unit(Vec::<()>::with_capacity(cap));
+                let (_, vcap) = v.ptr_cap();
+                let _ = cap; terms.push(format!("(OFresh 0 1 {}, ObsAlloc None {} {})", vcap, vcap, pool.len()));
+                held.push((next_id, v));
+                next_id += 1;
+            }
             "r" | "d" => {
                 if held.is_empty() { continue; }
                 let k: usize = op[1..].parse().unwrap();
                 let (id, v) = held.remove(k % held.len());
                 let (ptr, bcap) = v.ptr_cap();
+                let es_b = v.esize();
                 if kind == "r" {
                     let len_before = pool.len();
                     v.add_to(&pool);
                     let len_after = pool.len();
-                    if len_after == len_before + 1 { pooled.push((id, ptr, bcap)); }
+                    if len_after == len_before + 1 { pooled.push((id, ptr, bcap, es_b)); }
                     terms.push(format!("(OAdd {}, ObsAdd {})", id, len_after));
                 } else {
                     drop(v);
@@ -208,7 +229,12 @@ fn generate(seed: u64, n: usize, tier: &str, out: &mut impl Write) {
                     let ty = if ty == 9 && m == "0" { 0 } else { ty };
                     ops.push(format!("a{}:{}", ty, cap));
                 }
-                5..=8 => ops.push(format!("r{}", rng.below(8))),
+                5..=8 => {
+                    // now and then hand the pool a Vec<()> (capacity usize::MAX, zero-size layout): with
+                    // min_size 0 it is pooled and must never be handed out for a non-zero-sized type
+                    if rng.below(12) == 0 { ops.push(format!("z{}", rng.below(40))); }
+                    ops.push(format!("r{}", rng.below(8)))
+                }
                 _ => ops.push(format!("d{}", rng.below(8))),
             }
         }
